@@ -25,6 +25,8 @@ CASE_TIMEOUT = 900
 VALUES = [1.0, 2.0, 0.0, 0.5, -1.0, -3.0, 100.0]
 WEIGHTS = [1.0, 2.0, 0.5, 0.0, 10.0]
 SHIFTS = [5.0, -0.25]
+BIG_SHIFTS = [1.0e5]  # scale estimators only: a mean far larger than the spread (conditioning of one-pass formulas)
+CONST_VALUES = [0.1, 3.3, -0.7]  # constants that are not short binary fractions (rounding inside a weighted mean)
 SCALES = [2.0, 0.5]
 SIGNAL_VALUES = [0.0, 1.0, -2.0]
 WIDTHS = [3, 0.5, 2, 5, 7, 11, 21, 0.1, 0.99, "len+5"]  # "len+5" = an integer wider than the signal
@@ -72,6 +74,8 @@ def describe(tier):
             "values": VALUES,
             "weights": WEIGHTS,
             "shifts": SHIFTS,
+            "big_shifts_scale_estimators_only": BIG_SHIFTS,
+            "constant_vectors": CONST_VALUES,
             "scales": SCALES,
             "signal_values": SIGNAL_VALUES,
             "widths": WIDTHS + ["default (kaiser only)"],
@@ -136,6 +140,10 @@ def cases(tier):
     for k in range(1, b["multiset_len"] + 1):
         for ms in itertools.combinations_with_replacement(VALUES, k):
             yield {"check": "estimators", "values": list(ms), "orderings": k <= b["perm_len"]}
+    for c in CONST_VALUES:
+        for k in range(2, 5):
+            yield {"check": "estimators", "values": [c] * k, "orderings": False}
+            yield {"check": "weighted", "values": [c] * k, "nan": False}
     for k in range(1, b["weighted_sorted_len"] + 1):
         if k <= b["weighted_ordered_len"]:
             vecs = itertools.product(VALUES, repeat=k)
@@ -367,9 +375,9 @@ def eval_estimators(ctx, vec, full, sub, ref=None):
     if not full:
         return tokens
     # equivariance under x -> x + s and x -> k x
-    for s in SHIFTS:
+    for s in SHIFTS + BIG_SHIFTS:
         moved = [x + s for x in vec]
-        for name in LOCATIONS:
+        for name in LOCATIONS if s in SHIFTS else ():
             if base[name] is None:
                 continue
             s2 = {**sub, "fn": name, "shift": s}
@@ -567,7 +575,7 @@ def eval_weighted(ctx, vec, wts, full, sub, ref=None):
                 ctx.violation("weighted std agrees with sqrt(sum w (x - mu)^2 / sum w)", f"weighted_std/formula/{feat}", expected=want, observed=sd, sub=s2)
     if not full:
         return tokens
-    for s in SHIFTS:
+    for s in SHIFTS + BIG_SHIFTS:
         moved = [x + s for x in vec]
         if med is not None:
             g = call("weighted_median", moved)
